@@ -13,7 +13,7 @@ from vlib import ref_ap as RA
 TOL = 1e-9
 
 
-def weights(results, label, targets, policy, mode, thr):
+def weights(results, label, targets, policy, mode, thr, with_heading=True):
     """(AP weights, APH weights, confidences) of the pooled bucket in descending-confidence (stable) order."""
     from perception_eval.evaluation.metrics.detection.tp_metrics import TPMetricsAph
 
@@ -31,7 +31,7 @@ def weights(results, label, targets, policy, mode, thr):
             s = float(r.get_matching(D.mode(mode)).value)
             ok = ML.compatible(policy, el, gl) and (s < thr if dist else s > thr)
         w.append(1 if ok else 0)
-        wh.append(float(TPMetricsAph().get_value(r)) if ok else 0.0)
+        wh.append(float(TPMetricsAph().get_value(r)) if (ok and with_heading) else (1.0 if ok else 0.0))
         conf.append(r.estimated_object.semantic_score)
     return w, wh, conf
 
@@ -59,7 +59,7 @@ def check_maps(ctx, maps, frs, targets, policy, what):
         for L, ap, aph, thr in zip(targets, m.aps, m.aphs if m.aphs else [None] * len(m.aps), m.matching_threshold_list):
             pooled = [r for fr in frs for r in bucket(fr.object_results, L, targets)]
             ngt = sum(1 for fr in frs for g in fr.frame_ground_truth.objects if g.semantic_label.label.value == L)
-            w, wh, conf = weights(pooled, L, targets, policy, mode, thr)
+            w, wh, conf = weights(pooled, L, targets, policy, mode, thr, with_heading=bool(m.aphs))
             if len(set(conf)) < len(conf):
                 distinct_conf = False
             if not pooled:
